@@ -179,39 +179,8 @@ def ledger_rules(ctx, m, twf, q, push, pas, agg, tparam, delta):
         ctx.check(a_a is not None and field_chain(a_a)[0][0] == "param" and not any(x[0] == "call" for x in walk(a_a)), "call-sites", "aggressor-arg|" + fq.fn.short(), c.loc(),
                   "aggressor argument <- the matcher's own order parameter (%s)" % (render(a_a) if a_a else "?"),
                   "aggressor argument is %s" % (render(a_a) if a_a else "?"))
-        # (3) counter update on all paths after the call
-        res = c.result
-        cw = [x for x in fq.writes(field=m.f_tradevol) if x.root[0] == "param"]
-        good = []
-        for x in cw:
-            v = x.val
-            if v[0] == "field" and v[1][0] == "bin":
-                v = v[1]
-            if v[0] == "bin" and v[1] in ("Add", "AddWithOverflow") and fld(v[2], m.f_tradevol) and v[3] == res:
-                good.append(x)
-        ok = False
-        for x in good:
-            # every path from the call to a loop head / return passes the write block
-            exits = set(fq.body.return_blocks()) | set(fq.body.loop_heads())
-            nxt = fq.body.succs(c.b)
-            if nxt and all(fq.cfg.all_paths_pass(nxt[0], e, [x.b]) for e in exits if e in fq.cfg.reach_from(nxt[0])):
-                ok = True
-        ctx.check(ok, "counter", "update|" + fq.fn.short(), c.loc(),
-                  "every path after the fill executes self.%s += <returned volume>" % m.f_tradevol,
-                  "no `self.%s += <result of the trade writer>` on every path after the call (writes found: %s)" % (
-                      m.f_tradevol, "; ".join(x.text() for x in cw) or "none"))
-    # other writers of the counter
-    for f in ctx.prog.fns.values():
-        if f.crate.name != "bourse_book":
-            continue
-        fq = m.q(f)
-        for x in fq.writes(field=m.f_tradevol, owner="OrderBook"):
-            in_site = any(fq2.fn.path == f.path for fq2, _c in sites)
-            is_reset = x.val[0] == "const" and x.val[3] == 0
-            okw = in_site or (is_reset and not f.pub is False) or is_reset
-            ctx.check(okw, "counter", "writer|" + f.short(), x.loc(),
-                      "counter writer is the fill update or the reset (= 0): %s" % x.text(),
-                      "unexpected write to the cumulative counter: %s" % x.text())
+    # (3) every fill volume reaches the cumulative counter (directly or through returned accumulators)
+    fill_flow(ctx, m, twf, rule="counter")
 
     # ---------------------------------------------------------------- (4) conservation: Order.vol writers
     modify = m.book_fn("modify_order")
@@ -240,6 +209,200 @@ def ledger_rules(ctx, m, twf, q, push, pas, agg, tparam, delta):
     ctx.check(n >= 3, "conservation", "census", "-", "Order.vol write census: %d sites" % n)
     ctx.assume("valid histories: volumes >= 1, cumulative traded volume < 2^32 (no wrap of the counter)")
     ctx.note("opposite sides / admissible price of each fill are premises K4 of C01 (matching loop guards)")
+
+
+def fill_flow(ctx, m, twf, rule="counter"):
+    """Must-flow of fill volumes into the cumulative counter (interprocedural, bottom-up; the crate has no recursion).
+
+    A *source* is a call of the trade writer (it returns the logged volume) or of a function that returns fills it has
+    not yet counted.  On every path after a source, its result must be added either to the counter field of the
+    receiver book (`self.trade_vol += r`: a sink) or to a local accumulator that is initialised to 0, only ever
+    accumulates such results, and is itself flushed into the counter or returned (then the function *returns fills* and
+    its call sites are sources in turn).  Every other write of the counter must be the reset (`= 0`)."""
+    from analysis.origin import strip
+    book = [f for f in ctx.prog.fns.values() if f.crate.name == "bourse_book"]
+    summary = {}          # fn path -> True if the function returns uncounted fills
+    sinks = set()         # (fn path, block, stmt index) of recognised counter updates
+    n_src = [0]
+
+    def is_res(x, res):
+        return x == res or (x[0] == "phi" and res in x[1])
+
+    def add_of(v, res):
+        """other operand if v is `o + res` (checked or plain add), else None"""
+        if v[0] == "field" and v[2] == "0" and v[1][0] == "bin" and v[1][1] == "AddWithOverflow":
+            v = v[1]
+        elif not (v[0] == "bin" and v[1] == "Add"):
+            return None
+        if is_res(v[3], res):
+            return v[2]
+        if is_res(v[2], res):
+            return v[3]
+        return None
+
+    def local_assigns(q):
+        out = []
+        for blk in q.body.blocks:
+            if blk.cleanup:
+                continue
+            for i, st in enumerate(blk.stmts):
+                if st.k == "assign" and st.place.is_local():
+                    out.append((blk.i, i, st.place.local, strip(q.ev.rvalue(st.rv, (blk.i, i))), st.sp))
+        return out
+
+    def must_pass(q, frm, blocks):
+        exits = set(q.body.return_blocks()) | set(q.body.loop_heads())
+        nxt = q.body.succs(frm)
+        nxt = [x for x in nxt if not q.body.blocks[x].cleanup]
+        if not nxt:
+            return False
+        reach = q.cfg.reach_from(nxt[0])
+        return all(q.cfg.all_paths_pass(nxt[0], e, blocks) for e in exits if e in reach)
+
+    def counter_step(q, x, res):
+        """memory write x is `self.counter += res`"""
+        o = add_of(x.val, res)
+        return o is not None and x.field == m.f_tradevol and x.root[0] == "param" and fld(o, m.f_tradevol) and field_chain(o)[0][0] == "param"
+
+    def judge(q, c, res, what, depth=0):
+        """-> 'counted' | 'returned' | None (lost) for the value `res` produced at block c_b"""
+        steps = [x for x in q.writes(field=m.f_tradevol) if counter_step(q, x, res)]
+        for x in steps:
+            if must_pass(q, c, [x.b]):
+                sinks.add((q.fn.path, x.b, x.i))
+                return "counted"
+        # the function's own result IS the value (a pass-through wrapper)
+        rets = q.body.return_blocks()
+        if rets and all(is_res(strip(q.ev.local_val(0, q.ev.term_at(rb))), res) for rb in rets if rb in q.cfg.reach_from(c)) \
+                and any(rb in q.cfg.reach_from(c) for rb in rets):
+            return "returned"
+        # local accumulators
+        for (b, i, l, v, sp) in local_assigns(q):
+            o = add_of(v, res)
+            if o is None or not must_pass(q, c, [b]):
+                continue
+            if o != strip(q.ev.local_val(l, (b, i if v[0] != "field" else i))) and not _reads_local(q, b, i, l):
+                continue
+            # every other definition of the accumulator: 0 or another accumulation step
+            others_ok = True
+            for (b2, i2, l2, v2, _sp2) in local_assigns(q):
+                if l2 != l or (b2, i2) == (b, i):
+                    continue
+                if v2[0] == "const" and v2[3] == 0:
+                    continue
+                if (v2[0] == "field" and v2[1][0] == "bin" and v2[1][1] == "AddWithOverflow") or (v2[0] == "bin" and v2[1] == "Add"):
+                    continue
+                others_ok = False
+            if not others_ok or depth > 2:
+                continue
+            # outflow of the accumulator
+            acc_ok = None
+            for x in q.writes(field=m.f_tradevol):
+                vv = x.val
+                if vv[0] == "field" and vv[1][0] == "bin":
+                    vv = vv[1]
+                if vv[0] == "bin" and vv[1] in ("Add", "AddWithOverflow") and x.root[0] == "param" and fld(vv[2], m.f_tradevol) \
+                        and vv[3] == strip(q.ev.local_val(l, (x.b, x.i if x.i is not None else 0))) and must_pass_ret(q, c, [x.b]):
+                    sinks.add((q.fn.path, x.b, x.i))
+                    acc_ok = "counted"
+            if acc_ok is None:
+                rr = [rb for rb in rets if rb in q.cfg.reach_from(c)]
+                if rr and all(strip(q.ev.local_val(0, q.ev.term_at(rb))) == strip(q.ev.local_val(l, q.ev.term_at(rb))) for rb in rr):
+                    acc_ok = "returned"
+            if acc_ok:
+                return acc_ok
+        return None
+
+    def _reads_local(q, b, i, l):
+        """the add at (b, i) reads local l as its other operand (MIR-level: `T = AddWithOverflow(copy l, _); l = move T.0`)"""
+        st = q.body.blocks[b].stmts[i]
+        rv = st.rv
+        def uses(rv2):
+            return any(o.k in ("copy", "move") and o.place.is_local() and o.place.local == l for o in rv2.ops)
+        if rv.k == "bin":
+            return uses(rv)
+        if rv.k == "use" and rv.ops and rv.ops[0].k in ("copy", "move") and rv.ops[0].place.proj:
+            t = rv.ops[0].place.local
+            for d in q.ev.def_sites().get(t, []):
+                if d[0] == "s":
+                    st2 = q.body.blocks[d[1]].stmts[d[2]]
+                    if st2.rv.k == "bin" and uses(st2.rv):
+                        return True
+        return False
+
+    def must_pass_ret(q, frm, blocks):
+        nxt = [x for x in q.body.succs(frm) if not q.body.blocks[x].cleanup]
+        if not nxt:
+            return False
+        reach = q.cfg.reach_from(nxt[0])
+        return all(q.cfg.all_paths_pass(nxt[0], e, blocks) for e in q.body.return_blocks() if e in reach)
+
+    def returns_fills(f, stack=()):
+        if f.path in summary:
+            return summary[f.path]
+        if f.path in stack:
+            return False
+        summary[f.path] = False
+        q = m.q(f)
+        ret = False
+        for c in q.calls():
+            t = c.target
+            if t is None or t.crate.name != "bourse_book":
+                continue
+            src = t.path == twf.path or (t.path != f.path and returns_fills(t, stack + (f.path,)))
+            if not src:
+                continue
+            n_src[0] += 1
+            v = judge(q, c.b, c.result, c.name)
+            key = "%s|%s" % (f.short(), c.name)
+            if v == "counted":
+                ctx.ok(rule, c.loc(), "the volume returned by %s is added to self.%s on every path after the call" % (c.name, m.f_tradevol))
+            elif v == "returned":
+                ctx.ok(rule, c.loc(), "the volume returned by %s is accumulated and returned to the caller (judged at %s's call sites)" % (c.name, f.short()))
+                ret = True
+            else:
+                ctx.bad(rule, "update|" + key, c.loc(),
+                        "the fill volume returned by %s is neither added to self.%s nor accumulated into the function's result on every path "
+                        "after the call: these trades are logged but missing from the cumulative counter" % (c.name, m.f_tradevol))
+        summary[f.path] = ret
+        return ret
+
+    for f in book:
+        if f.kind == "Closure":
+            continue
+        returns_fills(f)
+    for f in book:
+        if summary.get(f.path) and (f.pub or not m.w.callers(f)) and f.path != twf.path:
+            ctx.bad(rule, "escapes|" + f.short(), ctx.loc(f), "%s returns fill volume that was not added to the counter, and it is an API entry / has no caller that counts it" % f.short())
+    ctx.check(n_src[0] >= 2, rule, "census", "-", "%d fill-volume sources followed to the counter" % n_src[0])
+    reset_rule(ctx, m, rule)
+    # other writers of the counter
+    for f in book:
+        fq = m.q(f)
+        for x in fq.writes(field=m.f_tradevol, owner="OrderBook"):
+            is_reset = x.val[0] == "const" and x.val[3] == 0
+            okw = (f.path, x.b, x.i) in sinks or is_reset
+            ctx.check(okw, rule, "writer|" + f.short(), x.loc(),
+                      "counter writer is a fill update or the reset (= 0): %s" % x.text(),
+                      "unexpected write to the cumulative counter: %s" % x.text())
+
+
+def reset_rule(ctx, m, rule):
+    """the reset entry really resets: OrderBook::reset_trade_vol writes counter := 0 unconditionally (and nothing else);
+    Market::reset_trade_vols reaches it for every book (fan-out is C13/C14's sibling rule)"""
+    try:
+        f = m.book_fn("reset_trade_vol")
+    except Exception:
+        ctx.lost(rule, "OrderBook::reset_trade_vol (the reset the environments call at the start of a step)")
+        return
+    q = m.q(f)
+    ws = [x for x in q.writes() if x.root[0] == "param"]
+    zero = [x for x in ws if x.field == m.f_tradevol and x.val[0] == "const" and x.val[3] == 0 and not x.guards]
+    ctx.check(len(zero) >= 1 and len(ws) == len(zero) and not [c for c in q.calls() if c.target is not None], rule, "reset-body", ctx.loc(f),
+              "reset_trade_vol sets self.%s = 0 unconditionally and writes nothing else" % m.f_tradevol,
+              "reset_trade_vol does not (only) reset the counter: writes %s" % ("; ".join(x.text() for x in ws) or "nothing"))
+    g = m.book_fn("get_trade_vol")
+    ctx.check(fld(m.q(g).ret(), m.f_tradevol), rule, "getter", ctx.loc(g), "get_trade_vol returns the counter field")
 
 
 def push_formal(q, push):
